@@ -749,6 +749,7 @@ func run(c *lib.Ctx) {
 	ctx = c
 	tmpRoot = c.TmpDir
 	phaseSchedules(c)
+	phaseSubSecond(c)
 	if pf := os.Getenv("VERIF_C12_PROF"); pf != "" {
 		f, _ := os.Create(fmt.Sprintf("%s.%d", pf, c.ShardI))
 		_ = pprof.StartCPUProfile(f)
@@ -897,6 +898,7 @@ func main() {
 				"cpu_seconds_total":             float64(m.Counters["cpu_ms"]) / 1000,
 				"cpu_seconds_max_process":       float64(m.Maxes["cpu_ms_max_shard"]) / 1000,
 				"schedules_explored":            m.Counters["sched_executions"],
+				"subsecond_attempts":            m.Counters["subsecond_attempts"],
 				"scheduling_points":             m.Counters["sched_points"],
 				"sched_scenarios_bound_1":       m.Distinct["sched_scenarios_bound_1"],
 				"sched_scenarios_bound_2":       m.Distinct["sched_scenarios_bound_2"],
